@@ -439,6 +439,8 @@ theorem gen_cv_total_batch_eq : type_of% @HC.ga_cv_total_batch_eq := @HC.ga_cv_t
     index, …): generated = `wPos` / `inPos` with the model's source indices -/
 theorem gen_mm_weight_positions_eq : type_of% @HC.ga_mm_weight_positions_eq := @HC.ga_mm_weight_positions_eq
 theorem gen_mm_input_positions_eq : type_of% @HC.ga_mm_input_positions_eq := @HC.ga_mm_input_positions_eq
+/-- positions READ by `decrypt_outputs_bfv` (non-packed branch, one polynomial): generated (destination, position) pairs = `outPos` -/
+theorem gen_mm_output_positions_eq : type_of% @HC.ga_mm_output_positions_eq := @HC.ga_mm_output_positions_eq
 /-- ... and the model's block encoders (the ones `gen_cheetah_matmul_search` runs) ARE the scatter of the generated plan -/
 theorem gen_encWeightSmall_plan : type_of% @HC.ga_encWeightSmall_plan := @HC.ga_encWeightSmall_plan
 theorem gen_encInputBlock_plan : type_of% @HC.ga_encInputBlock_plan := @HC.ga_encInputBlock_plan
